@@ -4,6 +4,7 @@
                                                              | cd,<nat> | cm,<nat> | ct,<nat> | pr | ze
                 metrics jwin <from> <to> <start:end:ip.ip...;...>     hand-built journal, window query
                 metrics jwrite <interval> <a<t>.<ip>,f<t>,...>          writer ops at explicit clock values
+                metrics jkey <k1>.<k2> <ip.ip...>                       one chunk under key k1 merged with reference sketches
                 metrics jipc <interval> <p<t>.<ip>.<type>.<a|r|n>,z<t>,f<t>,...>   broker history with a journal attached
    For [conc]/[race] the model answer is computed with the sequential [incsN]; by C19_inc_conc (repaired
    machine) every interleaving of the Incs publishes exactly this value at every quiescent point. *)
@@ -178,6 +179,30 @@ Definition run_journal (args : list bytes) : option bytes :=
             let all := count N N.eqb 0%Z (w_last w) (w_out w) in
             Some (bs "chunks=" ++ (match w_out w with [] => bs "-" | _ => join [SEMI] (map chunk_print (w_out w)) end)
                   ++ bs " all=" ++ dec_print (fst all))
+        | _, _ => None
+        end
+      else if beq op (bs "jkey") then
+        (* what one chunk stores under masking key k1, merged with reference sketches built under k1, k2 and
+           the empty key (key 0 here; the driver's keys are never empty).  The keyed mask is the pair
+           (key, address): injective in both, as the HMAC is taken to be. *)
+        match split_on DOT a, (if beq b (bs "-") then Some [] else map_opt dec_parse (split_on DOT b)) with
+        | [k1; k2], Some ips =>
+            match dec_parse k1, dec_parse k2 with
+            | Some k1, Some k2 =>
+                let k1 := N.succ k1 in let k2 := N.succ k2 in
+                let keq (x y : N * N) := N.eqb (fst x) (fst y) && N.eqb (snd x) (snd y) in
+                let ops := map (fun ip => Add 0%Z ip) ips ++ [Flush 1%Z] in
+                let w := jrun N (N * N) (fun ip => (k1, ip)) keq ops (new_writer 0%Z 3600%Z) in
+                match w_out w with
+                | [c] =>
+                    let ref k := sk_of (N * N) keq (map (fun ip => (k, ip)) ips) in
+                    let u k := dec_print (N.of_nat (List.length (sk_merge (N * N) keq (c_sk c) (ref k)))) in
+                    Some (bs "journal=sketch-only n=" ++ dec_print (N.of_nat (List.length (sk_of N N.eqb ips)))
+                          ++ bs " own=" ++ u k1 ++ bs " other=" ++ u k2 ++ bs " nokey=" ++ u 0%N)
+                | _ => None
+                end
+            | _, _ => None
+            end
         | _, _ => None
         end
       else None
